@@ -23,6 +23,9 @@ CHECKS = {
  "C02": dict(level="exploration", technique="deviation-bounded exhaustive enumeration of MathML terms (grammar G) x separator locales against structural invariants on the parsed result",
              text="Same enumeration as C01; for every accepted input the returned string must parse, have a math root with one child, respect all element arities and multiscript pairing, contain no empty token, no short unintended mrow and none of the wrappers canonicalization removes; planted special characters must survive the escape round trip; get_navigation_mathml at the root must return the same tree.",
              note="Parsing is done with python's expat-based ElementTree, independent of the library's sxd-document.", design="§4 C02"),
+ "C09": dict(level="exploration", technique="exhaustive enumeration of author-id plantings over the term grammar, and of all navigation/bookmark/braille-routing query sequences up to length 2 per expression",
+             text="Every spine term to depth 2 and every trigger term x {no ids, one author id at each element in turn, all elements, duplicates, generated-looking id}: all result elements have ids, no id is duplicated beyond the input, a planted id stays on the element carrying the token's text. Per expression, every navigation sequence of length <=2 over 21 commands, SSML and SAPI5 bookmarks, node-from-braille for every cell and cursor routing with offsets: every id handed out is an id of the returned MathML.",
+             note="Ids on mrow/wrapper elements and on non-rendered content carry no claim; where two author ids compete for one merged element only one can survive.", design="§4 C09"),
 }
 PENDING = {}
 
